@@ -22,9 +22,9 @@ func init() {
 		Level: "exploration",
 		Rule: "seeded blocks of 1..8 transactions with overlapping declared key sets over <=6 keys (some absent in the parent, empty values, duplicate transaction IDs in 1/5 of the non-avoid runs), fetch concurrency 1..16, a recording parent state that injects a read error at a chosen key in half of the runs; " +
 			"Fetch (block order), Get (one consumer task per tx), Wait and the fetch workers are interleaved by the seeded scheduler; non-trivial = >=2 runnable tasks at some step and >=2 txs sharing a key or an injected fault fired; distinct = (pick sequence, block, fault) hashes",
-		Exec: c24,
-		Real: []string{"internal/fetcher (Fetch/Get/Wait/Stop, workers)", "state.Keys.WithoutPermissions", "keys.NumChunks"},
-		Stub: []string{"parent state.Immutable (recording map with injected read errors)", "goroutine scheduling", "transaction execution (consumer tasks that only call Get)"},
+		Exec:        c24,
+		Real:        []string{"internal/fetcher (Fetch/Get/Wait/Stop, workers)", "state.Keys.WithoutPermissions", "keys.NumChunks"},
+		Stub:        []string{"parent state.Immutable (recording map with injected read errors)", "goroutine scheduling", "transaction execution (consumer tasks that only call Get)"},
 		Assumptions: []string{"the processor-level half of the property (metadata keys, values seen by actions) is exercised by the E2 checks C01/C05 on a recording parent view"},
 	})
 }
